@@ -113,6 +113,16 @@ func (node *PatriciaNode) Clone() *PatriciaNode {
 	return result
 }
 
+// cloneChildren copies the children list, so that the copy does not share the array with the list of another block's node
+func cloneChildren(children []*PatriciaNode) []*PatriciaNode {
+	if len(children) == 0 {
+		return nil
+	}
+	result := make([]*PatriciaNode, len(children))
+	copy(result, children)
+	return result
+}
+
 type PatriciaTrie struct {
 	root   *PatriciaNode
 	total  int
@@ -508,7 +518,7 @@ func (trie *PatriciaTrie) put(curNode *PatriciaNode, key string, data types.Node
 						dye:      dye,
 						terminal: child.terminal,
 						data:     child.data,
-						children: child.children,
+						children: cloneChildren(child.children),
 					}
 
 					tmpChild := child.Clone()
@@ -543,7 +553,7 @@ func (trie *PatriciaTrie) put(curNode *PatriciaNode, key string, data types.Node
 					dye:      child.dye,
 					terminal: child.terminal,
 					data:     child.data,
-					children: child.children,
+					children: cloneChildren(child.children),
 				}
 
 				node := &PatriciaNode{ // d#
